@@ -48,7 +48,8 @@ def norm_event(e):
            "req": [r for r in e.get("req", []) if producible(r)], "found": bool(e.get("found", False)),
            "gets": [{"s": "%s:%s" % (g["o"], g["s"]), "src": list(g["src"]), "perm": bool(g["perm"])}
                     for g in e.get("gets", []) if g["s"] not in ROOTISH],
-           "own": bool(e.get("own", True)), "srcw": list(e.get("srcw", [])), "exc": e.get("exc", "-")}
+           "own": bool(e.get("own", True)), "srcw": list(e.get("srcw", [])), "exc": e.get("exc", "-"),
+           "scope": str(e.get("scope", "") or "").split()}
     return out
 
 
